@@ -27,6 +27,7 @@ replay)
 	build
 	sched=$(python3 -c "import json,sys; print(json.dumps(json.load(open(sys.argv[1]))['case']))" "$rf") || exit 2
 	C13_OUT=$WORK C13_REPLAY="$sched" "$WORK/deploymc.test" -test.run 'TestC13$' -test.count=1 >"$WORK/log" 2>&1 || { tail -20 "$WORK/log"; exit 2; }
+	[ -n "${C13_TRACE:-}" ] && grep TRACE "$WORK/log"
 	python3 - "$WORK/replay.json" "$rf" <<'PY'
 import json,sys
 r=json.load(open(sys.argv[1]))
